@@ -143,6 +143,7 @@ func genC20(t *rapid.T) C20Case {
 	case "own":
 		c.X = h.GenAny(t, "x", 400)
 		c.Exp = h.GenExp(t, "exp")
+		c.Same = rapid.IntRange(0, 2).Draw(t, "edit") == 0 // edit the top word in place before setting the slice back
 	case "ownext":
 		// the receiver's own BitsExp slice, extended within its capacity (as the documentation allows) by 1..6 more
 		// significant words chosen here (often with leading zero digits, sometimes zero), set back with SetBitsExp:
@@ -305,6 +306,36 @@ func checkC20(c C20Case, o *h.Obs) *h.Fail {
 			}
 		} else if len(mant) != 0 {
 			return h.Failf("bitsexp", "BitsExp of %v has %d words", xv, len(mant))
+		}
+		if xv.Form == model.Finite && len(mant) > 0 && c.Same {
+			// the same slice header with its top word edited in place first (a smaller value: leading zero digits)
+			o.Label("own:edited-in-place")
+			top := uint64(mant[len(mant)-1]) / []uint64{10, 1000, 100000000000, h.Base / 10}[len(xv.Digits)%4]
+			mant[len(mant)-1] = decimal.Word(top)
+			u := make([]uint64, len(mant))
+			for i, v := range mant {
+				u[i] = uint64(v)
+			}
+			all := h.WordsToDigits(u)
+			digits := strings.TrimLeft(all, "0")
+			x.SetBitsExp(mant, c.Exp)
+			got := h.Read(x)
+			if got.Malformed != "" {
+				return h.Failf("malformed", "own slice edited in place: %v", got)
+			}
+			if strings.TrimRight(digits, "0") == "" {
+				if got.Form != model.Zero {
+					return h.Failf("own", "own slice edited to all zeros: %v", got)
+				}
+				return nil
+			}
+			exact := model.MkFinite(false, strings.TrimRight(digits, "0"), c.Exp-int64(len(all)-len(digits)))
+			want, acc := model.Round(model.X{Val: exact}, uint64(c.X.P), model.Mode(c.X.M))
+			if c.X.P != 0 && (!got.Val().Equal(want) || model.Acc(got.Acc) != acc) {
+				return h.Failf("own", "x = %v: top word of its own slice divided in place, SetBitsExp(same slice, %d): got %v (%v) want %v (%v)", xv, c.Exp, got.Val(), model.Acc(got.Acc), want, acc)
+			}
+			o.NonTrivial()
+			return nil
 		}
 		x.SetBitsExp(mant, c.Exp)
 		got := h.Read(x)
@@ -473,7 +504,7 @@ func checkC20(c C20Case, o *h.Obs) *h.Fail {
 	return nil
 }
 
-const ruleC20 = "rapid-generated cases of four kinds. (bits) little-endian word slices of length 0..60 (quick) / 0..1000 (thorough), words < 10^19 from the pattern set, with leading zero words, low zero words, all-zero, unnormalised top word; exponents from every class incl. MaxExp/MinExp +- 40 (+ slice length), +-2^63 and neighbours, +-2^62, uniform int64; receiver precision 0, smaller than the slice's digits, or ample; six modes; receivers with previous contents. Oracle: +0.mant x 10^exp rounded once to the receiver's precision with accuracy, zero for an all-zero slice, range rule; BitsExp read back denotes the value. (own) x.SetBitsExp(x.BitsExp()) with a new exponent. (ownext) the receiver's own slice extended within its capacity by 1..6 chosen more significant words and set back. (mantexp) all Decimals: x == mant x 10^exp with 0.1 <= |mant| < 1, attributes copied, specials, mant == x, SetMantExp(mant, exp) restores value and attributes. (setmantexp) any finite/special mant, offsets landing 0-3 steps inside/outside [MinExp, MaxExp], up to +-2^34, the four corners (mantissa exponent MinExp or MaxExp with an offset of +-(2^32-1) +- 2), and over the whole int64 range with its ends (MaxInt64, MinInt64, +-2^62, ...): +-0 / +-Inf exactly when the exponent sum leaves the range, accuracy, attributes of mant. Non-trivial = slice needing normalisation or rounding, exponent within 40 of a range end or beyond, SetMantExp landing within 3 of a range end."
+const ruleC20 = "rapid-generated cases of four kinds. (bits) little-endian word slices of length 0..60 (quick) / 0..1000 (thorough), words < 10^19 from the pattern set, with leading zero words, low zero words, all-zero, unnormalised top word; exponents from every class incl. MaxExp/MinExp +- 40 (+ slice length), +-2^63 and neighbours, +-2^62, uniform int64; receiver precision 0, smaller than the slice's digits, or ample; six modes; receivers with previous contents. Oracle: +0.mant x 10^exp rounded once to the receiver's precision with accuracy, zero for an all-zero slice, range rule; BitsExp read back denotes the value. (own) x.SetBitsExp(x.BitsExp()) with a new exponent, in one case of three with the top word of the slice divided in place first (same slice header, leading zero digits). (ownext) the receiver's own slice extended within its capacity by 1..6 chosen more significant words and set back. (mantexp) all Decimals: x == mant x 10^exp with 0.1 <= |mant| < 1, attributes copied, specials, mant == x, SetMantExp(mant, exp) restores value and attributes. (setmantexp) any finite/special mant, offsets landing 0-3 steps inside/outside [MinExp, MaxExp], up to +-2^34, the four corners (mantissa exponent MinExp or MaxExp with an offset of +-(2^32-1) +- 2), and over the whole int64 range with its ends (MaxInt64, MinInt64, +-2^62, ...): +-0 / +-Inf exactly when the exponent sum leaves the range, accuracy, attributes of mant. Non-trivial = slice needing normalisation or rounding, exponent within 40 of a range end or beyond, SetMantExp landing within 3 of a range end."
 
 var propC20 = &h.Prop[C20Case]{ID: "C20", Rule: ruleC20, Gen: genC20, Check: checkC20, Matchers: map[string]func(C20Case) bool{}}
 
